@@ -42,6 +42,7 @@ plugin "beancount.plugins.auto_accounts"
   Assets:Bank:Checking  -200.00 USD
 
 2020-01-15 price HOOL 110.00 USD
+2020-01-15 price USD 1.25 CAD
 
 2020-01-20 * "Broker" "sell hool"
   Assets:Broker           -1 HOOL {100.00 USD, 2020-01-10} @ 120.00 USD
@@ -92,6 +93,7 @@ LEDGER_B = '''
 
 2021-01-05 price ACME 7 USD
 2021-01-05 price EUR 1.2 USD
+2021-01-05 price USD 1.25 CAD
 
 2021-01-06 * "Sell" "some"
   Assets:Stock   -3 ACME {5 USD, 2021-01-03} @ 7 USD
